@@ -140,7 +140,7 @@ pub fn run(ctx: &mut Ctx, _replay: Option<&[String]>) {
         let nw = set_workers(w);
         for &target in &[1u64, 3, 20] {
             for &bch in &[0u64, 1, 2] {
-                for rep in 0..ctx.scale(2, 10) {
+                for rep in 0..ctx.scale(2, 40) {
                     let modulation = if rng.chance(1, 2) { Modulation::Bpsk } else { Modulation::Psk8 };
                     let punct: Option<Vec<bool>> = if rng.chance(1, 2) { Some(vec![true, true, true, false]) } else { None };
                     let inter: Option<isize> = *rng.pick(&[None, Some(3), Some(-3)]);
